@@ -146,11 +146,12 @@ fam('c03_replace_full', 'g_full', [1, 2, 3], [4, 5], profiles=('rel', 'dbg'))
 # second parameter = element shape: 0 (u8,()) zero-sized value, 1 (u8,[u64;3]) large value, 2 ((),u8) zero-sized key
 fam('c03_shapes', 'g_full', [(n, 0) for n in (0, 1, 2, 3)] + [(n, 1) for n in (0, 1, 2, 3)] + [(0, 2), (1, 2), (2, 2)], [(4, 0), (5, 0), (4, 1), (5, 1)], profiles=('rel', 'dbg'), unwind=lambda c: c[0] + 3)
 
-C04F1 = 'c04_clone c04_clear c04_retain c04_insert c04_remove c04_set_ops c04_drops'
+C04F1 = 'c04_clone c04_clear c04_retain c04_insert c04_remove c04_set_ops c04_drops c04_set_drops'
 fam('c04_insert c04_remove c04_set_ops', 'g_panic', [0, 1, 2, 3], [4, 5], dprofiles=('rel', 'dbg'))
 fam('c04_clone c04_clear c04_retain', 'g_panic', [1, 2, 3], [4, 5, 6], dprofiles=('rel', 'dbg'))   # N=0: no user callback is made
 fam('c04_clone_from', 'g_panic', [1, 2], [3])
 fam('c04_drops', 'g_panic', [1, 2, 3], [4, 5], dprofiles=('rel', 'dbg'))
+fam('c04_set_drops', 'g_panic', [1, 2, 3], [4], dprofiles=('rel', 'dbg'))
 fam('c04_lookup c04_entry c04_disjoint', 'g_panic', [1, 2, 3], [4, 5], dprofiles=('rel', 'dbg'))
 fam('c04_from_array', 'g_panic', [2, 3], [4, 5])
 fam('c04_from_iter', 'g_panic', [(0, 2), (1, 2), (2, 3), (3, 4)], [(4, 5), (3, 5)])
@@ -246,8 +247,15 @@ def _add(obs, fams, deep, extra_feats):
     for f in fams:
         d = FAM[f]
         caps = d['quick'] + (d['deep'] if deep else [])
-        for prof in (d['dprofiles'] if deep else d['profiles']):
-            for c in caps:
+        plan = [(prof, c) for prof in (d['dprofiles'] if deep else d['profiles']) for c in caps]
+        # quick tier: families that otherwise run in the release profile only get ONE small capacity in the debug-assertions
+        # profile as well (debug_assert! and overflow checks are different code); fat-LTO families are exempt (cost)
+        if not deep and 'dbg' not in d['profiles'] and not d['lto'] and d['quick'] and not extra_feats:
+            small = [c for c in d['quick'] if max(c) >= 1]
+            if small:
+                plan.append(('dbg', small[0] if max(small[0]) >= 2 or len(small) == 1 else small[1] if len(small) > 1 else small[0]))
+        for prof, c in plan:
+            if True:
                 h = f + ''.join('_%d' % x for x in c)
                 u = d['unwind'](c) if callable(d['unwind']) else d['unwind']
                 obs.append(Ob(h, d['group'], profile=prof, deep=deep, family=f, unwind=u, lto=d['lto'], feats=d['feats'] + tuple(extra_feats)))
